@@ -49,6 +49,7 @@ Verdict(e) ==
       [] e.fn = "pipeline" -> V_pipeline(e)
       [] e.fn = "whist" -> V_whist(e)
       [] e.fn = "wrestore" -> V_wrestore(e)
+      [] e.fn = "reject_misc" -> V_reject_misc(e)
       [] OTHER -> {"machinery.unknown_fn"}
 
 \* one line of JSON per event (TLC pretty-prints long tuples over several lines; a JSON string stays on one)
